@@ -190,7 +190,7 @@ class BaseShapeProtocol(Protocol):
         return f'({",".join(" ".join(coord.to_str()) for coord in ring)})'
 
     @staticmethod
-    def _parse_wkt_linear_ring(wkt_str: str, wkt_coords: str):
+    def _parse_wkt_linear_ring(wkt_str: str, wkt_coords: str, min_points: int = 1, closed: bool = False):
         """
         Parses a WKT coordinate string, e.g. "1.0 2.0, 3.0 4.0, ..." into
         geostructures Coordinates. If Z/M values are present, inserts them into
@@ -204,6 +204,12 @@ class BaseShapeProtocol(Protocol):
 
             wkt_coords:
                 A WKT coordinate list
+
+            min_points:
+                The least number of points the list must have (2 for a linestring)
+
+            closed:
+                Whether the list is a polygon ring, whose last point repeats the first
 
         Returns:
             List of Coordinates
@@ -220,6 +226,10 @@ class BaseShapeProtocol(Protocol):
 
         zm = zm or ['ZM']
         parsed_coords = [Coordinate.from_wkt(coord, zm_order=zm[0]) for coord in coords]
+        if len(parsed_coords) < min_points:
+            raise ValueError(f'Too few points in WKT: {wkt_str}')
+        if closed and parsed_coords[0] != parsed_coords[-1]:
+            raise ValueError(f'WKT linear rings must be closed: {wkt_str}')
         return parsed_coords
 
     def buffer_dt(
